@@ -222,8 +222,18 @@ def handleDispatch (l : Line) : Verdict :=
     | _, _ => .bad "simd_dispatch fields"
   | _ => .diverge "capability hook (fixes/HOOK-detect-cpu-cap.patch) is not applied to this tree"
 
+/-- count_non_nulls at counts where a narrow accumulator would wrap; the input is given by a pattern
+(harness/ops_simd.c, step 2b) -/
+def handleCountBig (l : Line) : Verdict :=
+  match l.inNat "n", l.inNat "pat", l.outNat "scalar", l.outNat "sse", l.outNat "dispatch" with
+  | some n, some pat, some sc, some se, some di =>
+    let want := if pat == 0 then n else if pat == 1 then n - (n + 7) / 8 else (n + 4) / 8
+    verdict [] [("scalar_counts_non_nulls", sc == want), ("sse_eq_scalar", se == want), ("dispatch_eq_scalar", di == want)]
+  | _, _, _, _, _ => .bad "simd_count_big args"
+
 def handle (l : Line) : Option Verdict :=
   if l.op == "simd_dispatch" then some (handleDispatch l)
+  else if l.op == "simd_count_big" then some (handleCountBig l)
   else if l.op.startsWith "simd_" then some (handleKernel l (l.op.drop 5).toString)
   else none
 
